@@ -411,6 +411,14 @@ def evict(rep, lib, rid="C07-EVICT"):
             nxt = [c for _, c, _ in res.calls if (c.callee or "").endswith("Iterator::next")
                    or (c.callee or "").endswith("DoubleEndedIterator::next_back")]
             rev = any("std::iter::Rev<" in (c.full or "") or (c.callee or "").endswith("next_back") for c in nxt)
+            # the loop was written over an iterator *parameter* (a helper inlined here): the type of the iterator is
+            # opaque at the `next` call, the direction is what the path did to the iterator before handing it over
+            opaque = [c for c in nxt if re.search(r"<(impl [^>]*Iterator|[A-Z]\w{0,2}) as std::iter::Iterator>::next",
+                                                  (c.t.get("callee_full") or c.full or ""))
+                      or (c.full or "").startswith("<impl ")]
+            if opaque and not rev:
+                nrev = [c for _, c, _ in res.calls if (c.callee or "").endswith("Iterator::rev")]
+                rev = len(nrev) % 2 == 1
             # a boxed iterator: look at what was boxed on the path explored for this direction
             boxed = [c for c in nxt if "dyn std::iter::Iterator" in (c.full or "")]
             if boxed:
